@@ -274,6 +274,15 @@ pub fn gen_plan(seed: u64, run: u64, cfg: Config, sys: &SysZones) -> Generated {
             if r.chance(1, 3) {
                 menu.push(Some(format!(":{}", s)));
             }
+            // a rule with blanks or a newline around it (as `TZ="$(cat file)"` or a config file
+            // line produces) is still that rule
+            if r.chance(1, 4) {
+                menu.push(Some(match r.below(3) {
+                    0 => format!("{}\n", s),
+                    1 => format!(" {}", s),
+                    _ => format!("{} ", s),
+                }));
+            }
             // a file in the working directory that happens to be called like the rule
             if r.chance(1, 6) {
                 if let Some(k) = any_file(r, &file_zones) {
